@@ -72,11 +72,11 @@ Proof. exact isclose_safe. Qed.
 Print Assumptions C18_isclose_never_aborts_or_reads_outside.
 
 Theorem C18_isclose_reflexive_symmetric : forall nd eps x y b, wfb x = true -> wfb y = true -> pair_dom x y = true ->
-  (0 < eps -> pair_dom x x = true -> isclose nd eps x x = Ret true \/ isclose nd eps x x = Reject) /\
+  (0 < eps -> pair_dom x x = true -> allelems finitez x = true -> isclose nd eps x x = Ret true \/ isclose nd eps x x = Reject) /\
   (isclose nd eps x y = Ret b -> isclose nd eps y x = Ret b \/ isclose nd eps y x = Reject).
 Proof.
   intros nd eps x y b Wx Wy D. split.
-  - intros He Dx. exact (isclose_refl nd eps x He Wx Dx).
+  - intros He Dx F. exact (isclose_refl nd eps x He Wx Dx F).
   - exact (isclose_sym nd eps x y b Wx Wy D).
 Qed.
 Print Assumptions C18_isclose_reflexive_symmetric.
@@ -106,6 +106,20 @@ Theorem C18_layout_independent : forall nd L s d L' s' d',
   forall eps, isclose_arrL nd eps L s d L' s' d' = Ret (all2 Z.eqb s s' && all2 (close eps) (logical L s d) (logical L' s' d')).
 Proof. exact isequal_arrL_spec. Qed.
 Print Assumptions C18_layout_independent.
+
+(* floating elements: closeness is |a - b| < eps in IEEE arithmetic — a NaN (either operand NaN, or the difference of two
+   equal infinities) is NOT below eps, an infinite difference neither: an element pair with a non-finite member is never
+   close (the documented default: NMTOOLS_ISCLOSE_NAN_HANDLING = NMTOOLS_ISCLOSE_INF_HANDLING = 0), for every eps; on
+   finite elements it is the comparison of the exact difference; symmetric always, reflexive on finite elements only *)
+Theorem C18_isclose_nonfinite_elements : forall eps a b,
+  (finitez a = false \/ finitez b = false -> close eps a b = false) /\
+  close eps a b = close eps b a /\
+  (0 < eps -> finitez a = true -> close eps a a = true) /\
+  close eps c_nan c_nan = false /\ close eps c_pinf c_pinf = false /\ close eps c_ninf c_pinf = false.
+Proof.
+  intros. split; [apply close_nonfinite|]. split; [apply close_sym|]. split; [apply close_refl|]. repeat split.
+Qed.
+Print Assumptions C18_isclose_nonfinite_elements.
 
 (* integer element types.  Every integer comparison is carried out in meta::common_type_t of the two element types
    (the wider width, signed when either is signed).  A comparison in a type in which both values are representable is
@@ -168,4 +182,13 @@ Proof. vm_compute. repeat split. Qed.
 Example C18_regression_apply_empty : forall cmp, apply_mm cmp None None = Ret true /\ apply_mm cmp None (Some (Num 1)) = Ret false.
 Proof. intros. split; reflexivity. Qed.
 Example C18_regression_isclose_integer_order : close 5 24 28 = true /\ close 5 28 24 = true /\ close 5 24 29 = false.
+Proof. vm_compute. repeat split. Qed.
+(* non-finite and extreme elements through the whole dispatch *)
+Example C18_nonvacuous_5 :
+  isclose true 2 (Arr [3] [4; c_nan; 12]) (Arr [3] [4; 8; 12]) = Ret false
+  /\ isclose true 2 (Arr [3] [4; c_nan; 12]) (Arr [3] [4; c_nan; 12]) = Ret false
+  /\ isclose false 2 (MSome (Arr [2] [c_pinf; 4])) (Arr [2] [c_pinf; 4]) = Ret false
+  /\ isclose true 2 (ELeft (Arr [2] [c_max; c_nzero])) (ELeft (Arr [2] [c_max; c_denorm])) = Ret true
+  /\ isclose true 2 (Num c_max) (Num c_nmax) = Ret false
+  /\ isclose true 2 (Tuple [Num c_ninf; Arr [1] [4]]) (Tuple [Num c_ninf; Arr [1] [4]]) = Ret false.
 Proof. vm_compute. repeat split. Qed.
